@@ -264,8 +264,16 @@ def _r4_geometry(run, ev, fa, state_b):
         elif d[0] == "definite":
             run.violated("C08.R4", init, None, "%s is %s; the specification is %s" % (name, show(got)[:120], desc), kind="geometry-" + name, field=name)
         else:
-            run.undecided("C08.R4", init, None, "%s is %s; cannot relate it to %s (%s)" % (name, show(got)[:120], desc, termdiff.describe(d)[:160]),
-                          kind="geometry-structure-" + name, field=name)
+            # the normaliser cannot relate the two spellings: look for a concrete counterexample on a grid of image sizes
+            # (a counterexample is a definite violation; agreement on the grid proves nothing and stays undecided)
+            cex = _grid_counterexample(got, want)
+            if cex is not None:
+                wv, hv, gv, ev_ = cex
+                run.violated("C08.R4", init, None, "%s is %s; the specification is %s: for a %d x %d image the code gives %s, the specification %s" % (
+                    name, show(got)[:100], desc, wv, hv, gv, ev_), kind="geometry-" + name, field=name)
+            else:
+                run.undecided("C08.R4", init, None, "%s is %s; cannot relate it to %s (%s)" % (name, show(got)[:120], desc, termdiff.describe(d)[:160]),
+                              kind="geometry-structure-" + name, field=name)
     lv = fa["_tile_levels"]
     ok_lv = lv == ("call", ("sym", "int"), (("call", ("attr", ("sym", "np"), "log2"), (fa["_tile_size"],), ()),), ())
     if ok_lv:
@@ -318,6 +326,41 @@ def _r4_geometry(run, ev, fa, state_b):
             run.violated("C08.R4", cfs, None, msg, kind=kind)
     else:
         run.holds("C08.R4", cfs, None, "sub-image tiling: parent geometry, size = sub size, offsets += (ix, iy)")
+
+
+def _grid_counterexample(got, want):
+    """(width, height, got value, wanted value) for an image size on which two geometry terms differ, or None."""
+    from sa.teval import teval, UNKNOWN
+
+    def hook(t, rec):
+        if t[0] == "call" and t[1] == ("sym", "next_highest_power_of_2") and len(t[2]) == 1:
+            v = rec(t[2][0])
+            if v is UNKNOWN:
+                return UNKNOWN
+            p_ = 256
+            while p_ < v:
+                p_ *= 2
+            return p_
+        if t[0] == "call" and t[1] == ("sym", "int") and len(t[2]) == 1:
+            v = rec(t[2][0])
+            return UNKNOWN if v is UNKNOWN else int(v)
+        if t[0] == "call" and t[1] == ("sym", "max") and t[2]:
+            vs = [rec(a) for a in t[2]]
+            return UNKNOWN if any(v is UNKNOWN for v in vs) else max(vs)
+        if t[0] == "call" and t[1] == ("sym", "min") and t[2]:
+            vs = [rec(a) for a in t[2]]
+            return UNKNOWN if any(v is UNKNOWN for v in vs) else min(vs)
+        return NotImplemented
+    sizes = list(range(1, 12)) + [255, 256, 257, 258, 511, 512, 513, 600, 1023, 1024, 1025]
+    for wv in sizes:
+        for hv in sizes:
+            env = {("sym", "width"): wv, ("sym", "height"): hv}
+            g, w_ = teval(got, env, [hook]), teval(want, env, [hook])
+            if g is UNKNOWN or w_ is UNKNOWN:
+                return None
+            if g != w_:
+                return wv, hv, g, w_
+    return None
 
 
 def _slices_spec(ev, image_x, image_y, tile_x, tile_y, width, height):
